@@ -51,17 +51,20 @@ abbrev Env (α : Type) := List (Nm × α)
 
 def lookup {α : Type} (e : Env α) (n : Nm) : Option α := (e.find? (fun p => p.1 == n)).map (·.2)
 
+/-- what Python binds to the formal `n` (default `d`) that stands at position `idx` of the signature -/
+def argFor {α : Type} (dflt : Val → α) (pos : List α) (kw : List (Nm × α)) (n : Nm) (d : Option Val) (idx : Nat) :
+    Option α :=
+  match pos[idx]?, lookup kw n with
+  | some _, some _ => none                 -- got multiple values for argument
+  | some v, none => some v
+  | none, some v => some v
+  | none, none => d.map dflt               -- default, or missing required argument
+
 /-- bind the formals from position `i` on -/
 def bindFrom {α : Type} (dflt : Val → α) (pos : List α) (kw : List (Nm × α)) : Sig → Nat → Option (Env α)
   | [], _ => some []
   | (n, d) :: rest, i =>
-    let here : Option α :=
-      match pos[i]?, lookup kw n with
-      | some _, some _ => none                 -- got multiple values for argument
-      | some v, none => some v
-      | none, some v => some v
-      | none, none => d.map dflt               -- default, or missing required argument
-    match here, bindFrom dflt pos kw rest (i + 1) with
+    match argFor dflt pos kw n d i, bindFrom dflt pos kw rest (i + 1) with
     | some v, some e => some ((n, v) :: e)
     | _, _ => none
 
